@@ -21,7 +21,8 @@ RULE = ("trace = seeded history (<= 20 steps) over 1..3 Version handles: constru
         "debian_revision / debian_version / full_version with valid parts, invalid parts, "
         "empty strings and None, read all attributes; an evaluation is one run; distinct = "
         "distinct (handle, op, argument-class) sequence hash; non-trivial = the history "
-        "contains at least one accepted and one rejected operation")
+        "contains at least one accepted and one rejected operation"
+        '; later additions: retried operations, look-alike letters, epochs of up to 4400 digits, quiet steps (nobody reads the objects until later), a churn of up to 20000 distinct versions inside one history')
 REAL = ["debian.debian_support.Version / BaseVersion (construction, __setattr__, __getattr__, "
         "_update_full_version, __str__)"]
 STUB = []
